@@ -518,6 +518,8 @@ class TrainRun:
     def snapshot(self, label, k=None):
         if not self.monitor:
             return
+        if self.monitor == "final" and label[0] != "return":
+            return
         import jax
 
         jax.effects_barrier()
@@ -573,8 +575,14 @@ class TrainRun:
             from . import faultbuf
 
             self.buffer = faultbuf.wrap(self, self.buffer)
+        self.memory_logger = None
         if plan.get("logger", True):
             self.logger = make_probe_logger(self.on_log)
+            if plan.get("memory_logger"):
+                from rl_blox.logging.logger import LoggerList, MemoryLogger
+
+                self.memory_logger = MemoryLogger()
+                self.logger = LoggerList([self.logger, self.memory_logger])
         self.env.listeners.append(self.on_env)
         mons = monitors.attach(self)
         start = plan.get("start_step", 0)
@@ -637,8 +645,11 @@ class TrainRun:
                 self.res.log.add("r", e["gid"], e["seed"])
             else:
                 self.res.log.add("x", e["v"])
-        if self.logger is not None:
-            for c in self.logger.calls:
+        pl = self.logger
+        if self.memory_logger is not None:
+            pl = self.logger.loggers[0]
+        if pl is not None:
+            for c in pl.calls:
                 if c[0] == "stat":
                     self.res.log.add("ls", c[1], c[2], c[3], c[4])
                 elif c[0] == "epoch":
@@ -648,6 +659,17 @@ class TrainRun:
         for s in self.snaps[-1:]:
             for n in sorted(s.leaves):
                 self.res.log.add("final", n, s.h(n))
+        if self.memory_logger is not None:
+            for key in sorted(self.memory_logger.stats):
+                xe, y = self.memory_logger.get_stat(key, "episode")
+                xs, _ = self.memory_logger.get_stat(key, "step")
+                self.res.log.add("mem", key, np.asarray(xe), np.asarray(xs), np.asarray(y, dtype=np.float64))
+        buf = getattr(self, "buffer_out", None) or self.buffer
+        buf = getattr(buf, "inner", buf)
+        if buf is not None and hasattr(buf, "buffer"):
+            n = len(buf)
+            for key, arr in buf.buffer.items():
+                self.res.log.add("buf", key, np.asarray(arr[:n]))
         sig = [self.adapter.name]
         sig += [str(self.plan["cfg"].get(k)) for k in sorted(self.plan["cfg"])]
         sig += [",".join(sorted(self.res.faults))]
